@@ -117,8 +117,8 @@ def impl_backward(scene, state, n=1, record_detectors=False, reset_fields=False)
 
 
 # ------------------------------------------------------------------------------- request encoding
-def _axis_tokens(scene, axis, is_complex):
-    j = J()
+def axis_info(scene, axis):
+    """(wrap, pp, pm, lo_kind, hi_kind): halo rule of one axis read from the placed boundary objects"""
     lo, hi = scene.faces.get(FACES[2 * axis], "none"), scene.faces.get(FACES[2 * axis + 1], "none")
     wrap = lo in ("periodic", "bloch") or hi in ("periodic", "bloch")
     pp, pm = 1.0 + 0j, 1.0 + 0j
@@ -130,6 +130,12 @@ def _axis_tokens(scene, axis, is_complex):
                 pm = np.conj(ph)
             else:
                 pp = ph
+    return wrap, pp, pm, lo, hi
+
+
+def _axis_tokens(scene, axis, is_complex):
+    wrap, pp, pm, lo, hi = axis_info(scene, axis)
+
     def sc(z):
         return [f2h(z.real), f2h(z.imag)] if is_complex else [f2h(z.real)]
     flags = [lo == "pec", hi == "pec", lo == "pmc", hi == "pmc"]
@@ -223,13 +229,15 @@ def np_curl_E(scene, E):
         ref = j["c0"] * float(scene.config.time_step_duration) / float(scene.config.courant_number)
         sc = [ref / wd[a][0] for a in range(3)]
     def nxt(f, ax):
-        lo, hi = scene.faces.get(FACES[2 * ax], "none"), scene.faces.get(FACES[2 * ax + 1], "none")
-        wrap = lo in ("periodic", "bloch") or hi in ("periodic", "bloch")
+        wrap, pp, pm, lo, hi = axis_info(scene, ax)
         g = np.roll(f, -1, axis=ax)
         idx = [slice(None)] * 3
         idx[ax] = -1
         if not wrap:
             g[tuple(idx)] = 0
+        elif pp != 1.0:
+            g = g.astype(np.complex128)
+            g[tuple(idx)] = g[tuple(idx)] * pp
         return g
     def d(f, ax):
         shp = [1, 1, 1]
